@@ -20,6 +20,8 @@ def items(tier):
             out.append(("vjp", c))
             out.append(("jvp", c))
     elif which == "C10":
+        for c in grid.container_grid(tier):
+            out.append(("reuse", c))
         for c in grid.program_grid(tier) + grid.index_grid(tier) + [c for c in grid.real_grid("quick", families=("binary", "contract")) if c.prim in ("add", "multiply", "op+", "op*", "dot", "matmul", "concatenate", "where")][:120]:
             out.append(("reuse", c))
     elif which == "C17":
